@@ -101,7 +101,7 @@ class SBool:
                 c.pending.append(c.prefix[: c.pos] + [False])
             c.prefix.append(v)
         c.pos += 1
-        c.decisions.append((t, v))
+        c.decisions.append((self.t, v))
         c.solver.add(t if v else z3.Not(t))
         return v
 
@@ -308,3 +308,57 @@ def model_float(m, t):
     if z3.is_algebraic_value(v):
         return float(v.approx(20).as_fraction())
     return float(str(v))
+
+
+# ---------------------------------------------------------------- equality modulo uninterpreted functions
+def _collect_apps(t, decls, acc):
+    if z3.is_app(t):
+        if t.decl().kind() == z3.Z3_OP_UNINTERPRETED and t.num_args() == 1 and any(t.decl().eq(d) for d in decls):
+            if not any(t.eq(x) for x in acc):
+                acc.append(t)
+        for c in t.children():
+            _collect_apps(c, decls, acc)
+
+
+def prove_equal_modulo_uf(assertions, a, b, decls=(LOG, EXP, SQRT), timeout_ms=120000):
+    """Decide `assertions |= a == b` where a, b contain unary uninterpreted functions.
+
+    Sound decomposition: every application f(x) in `a` is matched with an application f(y) in `b` whose argument is
+    PROVABLY equal (pure real arithmetic query); matched applications are replaced by one fresh variable on both sides and
+    the remaining polynomial/rational identity is decided by z3.  Returns (verdict, info) with verdict in
+    'unsat' (proved) | 'sat' (refuted; info = model) | 'unknown'.
+    """
+    apps_a, apps_b = [], []
+    _collect_apps(a, decls, apps_a)
+    _collect_apps(b, decls, apps_b)
+    # innermost first so nested applications are abstracted bottom-up
+    apps_a.sort(key=lambda t: len(t.sexpr()))
+    apps_b.sort(key=lambda t: len(t.sexpr()))
+    subs_a, subs_b = [], []
+    used = set()
+    queries = 0
+    for i, fa in enumerate(apps_a):
+        arg_a = z3.substitute(fa.arg(0), *subs_a) if subs_a else fa.arg(0)
+        match = None
+        for j, fb in enumerate(apps_b):
+            if j in used or not fa.decl().eq(fb.decl()):
+                continue
+            arg_b = z3.substitute(fb.arg(0), *subs_b) if subs_b else fb.arg(0)
+            r, m, dt = check_valid(assertions, arg_a == arg_b, timeout_ms=timeout_ms)
+            queries += 1
+            if r == "unsat":
+                match = j
+                break
+        v = z3.Real(f"uf!{fa.decl().name()}!{i}")
+        subs_a.append((fa, v))
+        if match is not None:
+            used.add(match)
+            subs_b.append((apps_b[match], v))
+    for j, fb in enumerate(apps_b):
+        if j not in used:
+            subs_b.append((fb, z3.Real(f"uf!{fb.decl().name()}!b{j}")))
+    a2 = z3.substitute(a, *subs_a) if subs_a else a
+    b2 = z3.substitute(b, *subs_b) if subs_b else b
+    r, m, dt = check_valid(assertions, a2 == b2, timeout_ms=timeout_ms)
+    queries += 1
+    return r, {"model": m, "queries": queries, "matched": len(used), "apps": (len(apps_a), len(apps_b))}
